@@ -39,6 +39,16 @@ func (p *InsertionParameters) ValidateShape(treeDepth uint32, batchSize uint32) 
 	return nil
 }
 
+// bytes32 returns the big-endian bytes of v, left-padded with zeroes to the
+// 32 bytes a uint256 occupies in the hashed input.
+func bytes32(v *big.Int) []byte {
+	b := v.Bytes()
+	if len(b) < 32 {
+		b = append(make([]byte, 32-len(b)), b...)
+	}
+	return b
+}
+
 // ComputeInputHash computes the input hash to the prover and verifier.
 //
 // It uses big-endian byte ordering (network ordering) in order to agree with
@@ -52,8 +62,8 @@ func (p *InsertionParameters) ComputeInputHashInsertion() error {
 		return err
 	}
 	data = append(data, buf.Bytes()...)
-	data = append(data, p.PreRoot.Bytes()...)
-	data = append(data, p.PostRoot.Bytes()...)
+	data = append(data, bytes32(&p.PreRoot)...)
+	data = append(data, bytes32(&p.PostRoot)...)
 	for _, v := range p.IdComms {
 		idBytes := v.Bytes()
 		// extend to 32 bytes if necessary, maintaining big-endian ordering
